@@ -333,6 +333,9 @@ func runC12(c *core.Ctx, idx int) {
 		for pass, atom := range []func(int) ql.Stream{atomBool, atomCmp} {
 			st := sk.stream(atom)
 			texts := []string{st.Canon(), st.Tight(), st.Respell(r), st.Respell(r)}
+			if n >= 4 && idx < nChunks {
+				texts = []string{st.Canon(), st.Respell(r)} // the large exhaustive layer: canonical + one re-spelling
+			}
 			for ti, text := range texts {
 				q, err := ast.Parse(tbl, text)
 				c.Eval()
